@@ -80,11 +80,11 @@ _w("C12", 25, 600,
    ["wrappers are real go-kms-wrapping aead wrappers (honour associated data)",
     "'node-side registration nonce' is looked for in NodeCredentials records only (the server's own copy in NodeInformation is not covered by the statement)"])
 _w("C13", 20, 600,
-   "runs 0..107 enumerate completely: for each of 18 flows (authorize; fetch node-led / token / wrapper / re-wrapped; token creation; root rotation on empty storage, at promotion time, as no-op, with reinitialize; node rotation by key ID and by node ID; server-certificate generation; node-side NewNodeCredentials and HandleFetchNodeCredentialsResponse; and protocol.Dial of a pending node against the real listener with the fault in the server storage, in the node storage, and in the token variant) x 3 back ends x storage wrapper on/off, a fault-free pilot counts the n storage operations of the call and then every position 0..n-1 x {generic error, injected not-found, cancelled context} is executed in a fresh world; later runs sample double faults. Non-trivial: every faulted execution; distinct by (flow, back end, wrapper, position(s), kind(s)).",
+   "runs 0..125 enumerate completely: for each of 21 flows (authorize; fetch node-led / token / wrapper / re-wrapped; token creation; root rotation on empty storage, at promotion time, as no-op, with reinitialize; node rotation by key ID and by node ID; a repeated wrapper-flow fetch; a replayed rotation payload; server-certificate generation; node-side (also the token variant) NewNodeCredentials and HandleFetchNodeCredentialsResponse; and protocol.Dial of a pending node against the real listener with the fault in the server storage, in the node storage, and in the token variant) x 3 back ends x storage wrapper on/off, a fault-free pilot counts the n storage operations of the call and then every position 0..n-1 x {generic error, injected not-found, cancelled context} is executed in a fresh world; later runs sample double faults. Non-trivial: every faulted execution; distinct by (flow, back end, wrapper, position(s), kind(s)).",
    ["a cancelled-context fault cancels the context the harness handed to the library and fails that call; back ends that ignore contexts (file) keep working afterwards",
-    "a failed call may legitimately have added a record for its own new key (node rotation whose second half failed)",
+    "after every failed faulted call the honest caller retries once without fault and the same oracle is applied to the retry", "a failed call may legitimately have added a record for its own new key (node rotation whose second half failed)",
     "in the three Dial flows every simstore call and simnet operation is also a scheduling point (the tape picks the interleaving of node and server)"],
-   level="fault_enumeration", min_runs=108, exhaustive_quick=True, grace_s=600)
+   level="fault_enumeration", min_runs=126, exhaustive_quick=True, grace_s=600)
 _w("C09", 40, 900,
    "each run is one discrete-event history on the fake clock: lifetime 1min..10y, skews 0..lifetime/4 (or the defaults), server rotation intervals drawn in (0,R] with R<S (incl. exactly R), 1-3 nodes that enroll at a random instant and re-enroll (authorize+fetch or RotateNodeCredentials) at intervals in (0,N], N=(S-R)/2-|nbSkew|-2s (incl. exactly N); 30-200 events; probes 1ns before / at / after every event and at random instants in between. Non-trivial: every history; distinct by (lifetime, skews, R, nodes, events, back end).",
    ["x509 validity has one-second resolution: configurations below one minute are not generated and the node bound carries a 2s allowance",
@@ -150,7 +150,7 @@ LEVEL_TEXT = {
     "C14": "seeded simulation of hostile peers against the real listener: every Accept iteration runs under recover (a panic is a violation), every error for a hostile connection must be Temporary, a subsequent honest node must connect, non-temporary errors only after the base listener is closed or fails.",
     "C09": "seeded discrete-event simulation of rotation/re-enrollment histories over simulated years with cadences up to and including the stated bounds; invariants (never reset, roots stay trusted until the successor is valid, every node holds a valid trusted chain, ClientConfigs agrees) at probe instants around every event.",
     "C04": "seeded exploration of the full configuration product with lost-response retries and response substitution; every clause about response, certificates, server record and node storage is checked with independent crypto/x509/ecdh.",
-    "C13": "complete enumeration of single storage faults (every operation position x three error kinds) for 18 flows x 3 back ends x wrapper on/off, each in a fresh simulated world, plus sampled double faults; oracle: error without results, or success reflected in the inner back end; other nodes' records byte-identical.",
+    "C13": "complete enumeration of single storage faults (every operation position x three error kinds) for 21 flows x 3 back ends x wrapper on/off, each in a fresh simulated world, plus sampled double faults; oracle: error without results, or success reflected in the inner back end; other nodes' records byte-identical.",
     "C10": "seeded exploration of rotation requests, lookup orders, corruptions, replays and rotation chains against a model recomputed from stored records with independent cryptography.",
     "C11": "seeded simulation of two parties exchanging encrypted messages over a delaying, reordering, corrupting channel across key rotations; oracle is an independent X25519/key-ID computation.",
     "C12": "seeded exploration of all writing flows with a byte-level scan of everything handed to storage, plus record-level round-trip / wrong-wrapper / misdirected-sealed-field checks for every optional-field combination.",
